@@ -21,6 +21,9 @@ import (
 //              (was: oversize-tx-overtaken)
 //   anylimit   a different limit on every call, many smaller than a tx, restarts, drained
 //   flaky      the DA grows between the calls, retrieval faults come and go, then drained
+//   crash      the process dies INSIDE a call (`crash-next at=k`): after k = 0, 1, 2, 3 (and beyond) of the call's
+//              durable writes, with and without carry-over, batch cut by the limit, a DA fault in the middle;
+//              then drained. Beyond C20's quantifier (restarts between calls): effects counted as beyond-quantifier/..., only C20/crash/unaccounted/... is reported
 //   lawless    forged LastBatchData, wrong chain id, any op order (contract=0: size bound + correspondence only)
 //   malformed  broken op lines
 type g struct {
@@ -296,6 +299,51 @@ func (g *g) flaky() {
 	g.p("end max=%d calls=%d", 7+g.r.Intn(30), ntx+h+3)
 }
 
+func (g *g) crash() {
+	start, drift := uint64(g.r.Intn(3)), uint64(g.r.Intn(4))
+	g.p("reset start=%d drift=%d fam=crash", start, drift)
+	nh := 2 + g.r.Intn(5)
+	ntx := 0
+	for h := 0; h < nh; h++ {
+		n := 1 + g.r.Intn(4)
+		if h > 0 && g.r.Chance(25) {
+			n = 0
+		}
+		ntx += n
+		g.p("put h=%d txs=%s", h, hx.HexList(g.txs(n, 1, 6)))
+	}
+	head := nh + g.r.Intn(4)
+	g.p("head n=%d", head)
+	max := 7 + g.r.Intn(10) // above every tx size: the drain below is a draining limit
+	if g.r.Chance(15) {
+		max = 0
+	}
+	fault := -1
+	for i, n := 0, 3+g.r.Intn(7); i < n; i++ {
+		if fault < 0 && g.r.Chance(15) {
+			fault = g.r.Intn(nh + 1)
+			g.p("fault h=%d k=%s", fault, []string{"errids", "errget"}[g.r.Intn(2)])
+		} else if fault >= 0 && g.r.Chance(40) {
+			g.p("fault h=%d k=none", fault)
+			fault = -1
+		}
+		m := max
+		if g.r.Chance(20) {
+			m = 1 + g.r.Intn(8)
+		}
+		if g.r.Chance(45) {
+			g.p("crash-next at=%d max=%d", g.r.Intn(5), m)
+		} else {
+			g.p("next max=%d", m)
+			g.maybeRestart(20)
+		}
+	}
+	if fault >= 0 {
+		g.p("fault h=%d k=none", fault)
+	}
+	g.p("end max=%d calls=%d", max, ntx+head+3)
+}
+
 func (g *g) lawless() {
 	start, drift := uint64(g.r.Intn(4)), uint64(g.r.Intn(4))
 	g.p("reset start=%d drift=%d contract=0 fam=lawless", start, drift)
@@ -310,7 +358,11 @@ func (g *g) lawless() {
 		case 3:
 			g.p("fault h=%d k=%s", g.r.Intn(h+2), []string{"errids", "errget", "none"}[g.r.Intn(3)])
 		case 4:
-			g.p("restart")
+			if g.r.Bool() {
+				g.p("restart")
+			} else {
+				g.p("crash-next at=%d max=%d", g.r.Intn(4), g.r.Intn(25))
+			}
 		case 5: // forged or malformed echo
 			var echo [][]byte
 			for j := g.r.Intn(3); j >= 0; j-- {
@@ -344,6 +396,7 @@ func (g *g) malformed() {
 	lines := []string{
 		"put h=1 txs=zz", "put txs=01", "put h=x txs=01", "put h=1", "head", "head n=-1", "fault h=1 k=what", "fault k=errids",
 		"next", "next max=abc", "next max=5 echo=0g", "next max=5 echo=012", "end max=3", "end calls=3", "end max=3 calls=9999",
+		"crash-next", "crash-next max=3", "crash-next at=1", "crash-next at=x max=3", "crash-next at=1 max=3 echo=0g", "crash-next at=1 max=3",
 		"frobnicate", "put h=1 txs=0102,.,03", "next max=3", "put h=0 txs=01", "next max=2 echo=.", "restart now", "next max=4",
 	}
 	for _, i := range g.r.Perm(len(lines)) {
@@ -366,9 +419,31 @@ func gen(r *hx.Rng, tier string, w io.Writer) {
 	x.p("next max=5")
 	x.p("next max=5")
 	x.p("end max=5 calls=60")
+	// crashes inside a call (beyond the quantifier; every crash window is hit on every run): the pop is saved before the answer is returned ...
+	x.p("reset start=1 drift=2 fam=seeded-crash-pop")
+	x.p("put h=1 txs=aa01,aa02,aa03")
+	x.p("head n=3")
+	x.p("next max=5")
+	x.p("crash-next at=1 max=5")
+	x.p("end max=5 calls=10")
+	// ... the scan position is saved before the answer is returned ...
+	x.p("reset start=1 drift=2 fam=seeded-crash-scan")
+	x.p("put h=1 txs=aa01")
+	x.p("head n=3")
+	x.p("crash-next at=2 max=0")
+	x.p("end max=0 calls=10")
+	// ... and the push-back is saved before the scan position: the height is both queued and re-scanned
+	x.p("reset start=1 drift=2 fam=seeded-crash-torn")
+	x.p("put h=1 txs=aa01,aa02,aa03")
+	x.p("head n=3")
+	x.p("crash-next at=2 max=5")
+	x.p("next max=5")
+	x.p("next max=5")
+	x.p("end max=5 calls=10")
 	for i := 0; i < n; i++ {
 		x.single()
-		x.single()
+		x.crash()
+		x.crash()
 		x.exactfill()
 		x.allfit()
 		x.rerelease()
